@@ -210,7 +210,10 @@ def typeInfo (resolve : List String → Nat) (ty : TySyn) : Except Reject TyInfo
     | none =>
       -- parse_enumeration
       match ty.segs.getLast?, ty.lastArgs with
-      | some "Option", some [arg] => .ok { fromDT := none, isSigned := isSigned, custom := some { ty := resolve arg, isOption := true } }
+      | some "Option", some [arg] =>
+        -- a generic argument that is not a type (a lifetime, a const expression) is written as the empty path
+        if arg.isEmpty then .error (.error "Invalid Option binding: Expected generic type")
+        else .ok { fromDT := none, isSigned := isSigned, custom := some { ty := resolve arg, isOption := true } }
       | some "Option", some _ => .error (.error "Invalid Option<T> path. Expected exactly one generic type argument")
       | some "Option", none => .error (.macroPanic "Expected < after Option")
       | _, _ => .ok { fromDT := none, isSigned := isSigned, custom := some { ty := resolve ty.segs, isOption := false } }
